@@ -1,6 +1,6 @@
 (* C07 - the allowed list behaves as a set and the verdict is monotone in it. *)
 From Coq Require Import Permutation.
-From Spdx Require Import Props.Shipped Proofs.Laws.
+From Spdx Require Import Props.Shipped Proofs.Laws Proofs.Respell.
 Local Open Scope list_scope.
 
 (* observable = Some verdict | None (an error was returned) *)
@@ -20,11 +20,23 @@ Theorem C07_monotone e A B : satisfies T0 e A = Ok true -> Forall (entry_ok T0) 
 Proof. exact (sat_mono T0 HT0 Hnr0 e A B). Qed.
 
 
+(* the re-spellings named by the property denote the same node: surrounding spaces, redundant parentheses
+   (letter case of a listed id: C09) - for arbitrary entries, by compositionality of tokenisation *)
+Theorem C07_spaces_and_parentheses a sp1 sp2 :
+  Forall (fun ch => is_space ch = true) sp1 -> Forall (fun ch => is_space ch = true) sp2 -> entry_ok T0 a ->
+  (entry_ok T0 (sp1 ++ a ++ sp2) /\ pn T0 (sp1 ++ a ++ sp2) = pn T0 a) /\
+  (entry_ok T0 ("("%char :: a ++ [")"%char]) /\ pn T0 ("("%char :: a ++ [")"%char]) = pn T0 a).
+Proof.
+  intros F1 F2 [n [HP HL]]. split.
+  - pose proof (parse_pad T0 HT0 a n sp1 sp2 F1 F2 HP) as H. split; [exists n; auto|]. unfold pn. rewrite H, HP. reflexivity.
+  - pose proof (parse_parens T0 HT0 a n HP) as H. split; [exists n; auto|]. unfold pn. rewrite H, HP. reflexivity.
+Qed.
+
 Example C07_example :
   pn T0 (s2l "  ( gpl-2.0+ ) ") = pn T0 (s2l "GPL-2.0-or-later") /\ entry_ok T0 (s2l "  ( gpl-2.0+ ) ")
   /\ satisfies T0 (s2l "GPL-3.0-only") [s2l "Zlib"; s2l "GPL-2.0-only"; s2l "GPL-2.0-or-later"; s2l "Zlib"] = Ok true.
 Proof. vm_compute. repeat split. eexists. split; reflexivity. Qed.
 
 (* axioms the property theorems of this file depend on (one traversal for all of them) *)
-Definition C07_theorems := (@C07_reorder, @C07_repeat, @C07_respell, @C07_same_set, @C07_monotone).
+Definition C07_theorems := (@C07_reorder, @C07_repeat, @C07_respell, @C07_same_set, @C07_monotone, @C07_spaces_and_parentheses).
 Redirect "assumptions/C07" Print Assumptions C07_theorems.
